@@ -678,3 +678,63 @@ Print Assumptions C07_gov_floor_update_discount.
 Print Assumptions C07_gov_floor_set_whitelist.
 Print Assumptions C07_oe_gov_floor_update_price.
 Print Assumptions C07_oe_gov_floor_set_whitelist.
+
+(* =====================================================================================
+   Migrations inside histories.  `minter_migrate` / `o_minter_migrate` (model/MinterMigrate.v)
+   are the minters' `migrate` entry points as functions on the sale-world state; they are
+   not handler operations, so `step` / `ostep` and the theorems above are untouched.  The
+   sale-world correspondence runs migrations inside its histories (SaleCorr.IMigrate /
+   SaleOeCorr.OIMigrate), from stored versions around 3.9.0 and the current version, by the
+   wasm admin and by strangers.
+   ===================================================================================== *)
+From LP Require Import MinterMigrate MinterMigrateProofs.
+
+(* an accepted migration leaves the public price, its denom, the discount and therefore
+   the quoted price as they were.  The ONLY slot it may write is the discount cooldown
+   anchor: unchanged, or (stored version below 3.9.0 and not the code's) set to
+   now - 12 h (43200 s) *)
+Theorem C07_migrate_keeps_prices : forall vr now name_ok stored admin s s',
+  minter_migrate vr now name_ok stored admin s = Ok s' ->
+  s_price s' = s_price s /\ s_denom s' = s_denom s /\ s_discount s' = s_discount s /\
+  (s_last_discount s' = s_last_discount s \/ s_last_discount s' + 43200 * 1000000000 = now) /\
+  (forall fp wv, q_current_price s' fp wv = q_current_price s fp wv).
+Proof. exact migrate_prices. Qed.
+
+(* from 3.9.0 on nothing changes at all: every cooldown fact of part 1 is as before *)
+Theorem C07_migrate_from_390_or_later_changes_nothing : forall vr now name_ok v admin s s',
+  minter_migrate vr now name_ok (Some v) admin s = Ok s' ->
+  ver_ltb v (3, 9, 0) = false -> s' = s.
+Proof. exact migrate_anchor_moves_only_below_390. Qed.
+
+(* what the anchor initialisation means for the cooldown: right after a migration from a
+   version below 3.9.0 the admin can set a discount at once (same block), whatever the
+   previous discount change was - the 12 h cooldown of C07_update_discount_ok restarts
+   from the migration instant minus 12 h.  Stated, not hidden: this is the code's
+   documented initialisation for contracts that predate the anchor. *)
+Theorem C07_migrate_then_discount_at_once : forall vr now v admin s s' e fp wv d,
+  minter_migrate vr now true (Some v) admin s = Ok s' ->
+  ver_ltb v (3, 9, 0) = true ->
+  code_version (vending_contract vr) <> Some v ->
+  e_now e = now -> now <= U64_MAX -> e_sender e = s_admin s -> e_funds e = [] ->
+  s_start s <= now -> d <= s_price s -> fp_min_price fp <= d ->
+  exists s'', step vr s' e fp wv (OUpdateDiscountPrice d) = Ok (s'', []) /\ s_discount s'' = Some d.
+Proof. exact migrate_then_discount_at_once. Qed.
+
+Theorem C07_oe_migrate_changes_nothing : forall vr now name_ok stored admin s s',
+  o_minter_migrate vr now name_ok stored admin s = Ok s' -> s' = s.
+Proof. exact o_migrate_id. Qed.
+
+Example C07_migrate_ex :
+  match minter_migrate ex_plain 100000000000000 true (Some (3, 8, 9)) true ex_s0,
+        minter_migrate ex_plain 100000000000000 true (Some (3, 9, 0)) true ex_s0,
+        minter_migrate ex_plain 100000000000000 true (Some (99, 0, 0)) true ex_s0,
+        minter_migrate ex_plain 100000000000000 true (Some (3, 8, 9)) false ex_s0 with
+  | Ok a, Ok b, Err, Err => s_last_discount a = 100000000000000 - 43200000000000 /\ b = ex_s0 /\ s_price a = 100
+  | _, _, _, _ => False
+  end.
+Proof. vm_compute. repeat split; reflexivity. Qed.
+
+Print Assumptions C07_migrate_keeps_prices.
+Print Assumptions C07_migrate_from_390_or_later_changes_nothing.
+Print Assumptions C07_migrate_then_discount_at_once.
+Print Assumptions C07_oe_migrate_changes_nothing.
